@@ -110,10 +110,11 @@ func (m *Manager) wipeoutKey(ctx context.Context, keyName string) error {
 				&kmspb.DestroyCryptoKeyVersionRequest{Name: kver.GetName()})
 			result = multierr.Append(result, err)
 		}
-		if len(resp.GetCryptoKeyVersions()) < keyPageSize {
+		// An empty token, not a short page, marks the last page.
+		pageToken = resp.GetNextPageToken()
+		if pageToken == "" {
 			break
 		}
-		pageToken = resp.GetNextPageToken()
 	}
 	return result
 }
@@ -132,10 +133,11 @@ func (m *Manager) Wipeout(ctx context.Context) error {
 		for _, key := range resp.GetCryptoKeys() {
 			result = multierr.Append(result, m.wipeoutKey(ctx, key.GetName()))
 		}
-		if len(resp.GetCryptoKeys()) < keyPageSize {
+		// An empty token, not a short page, marks the last page.
+		pageToken = resp.GetNextPageToken()
+		if pageToken == "" {
 			break
 		}
-		pageToken = resp.GetNextPageToken()
 	}
 	return result
 }
